@@ -155,6 +155,7 @@ pub fn execute(case: &ChanCase) -> ChanRun {
         script: vec![],
         abort_on_cell_race: false,
         stretch: 1,
+        hold: None,
     };
     let exec = Exec::new(cfg, n);
     let ch: Arc<Channel<Payload>> = Arc::new(Channel::new());
